@@ -60,8 +60,6 @@ def check_float(x, p, use_prefix, table, unit='V'):
         if text not in ('∞', '-∞') or (x < 0) != text.startswith('-'):
             return f'{text!r} should saturate to an infinity sign with the sign of the value'
         return None
-    if e_last < lo:
-        return None          # below the range: not specified by the property
     if rounds_up and mag == -1 and text in ('∞', '-∞') and hi < 0:
         # KF-C18-1: the value rounds up to 1.00..0 and is then treated as having exponent 0, beyond a prefix table whose largest exponent is negative
         return 'KIND:carry-to-one-saturates:' + f'{text!r} although the rounded value 1.0 is inside the range'
